@@ -47,9 +47,11 @@ structure Verdict where
   specImpl : String := "ok"           -- executable spec predicate on the implementation's observation
   specModel : String := "ok"          -- … and on the model's
   trig : List String := []            -- known-finding triggers true of the input
+  implProj : Option Json := none      -- the part of the implementation's observation the model predicts
 
 def Verdict.toJson (v : Verdict) (id : String) : Json :=
   Json.mkObj [("id", id), ("model", v.model), ("compare", v.compare), ("frag", v.frag),
-    ("spec_impl", v.specImpl), ("spec_model", v.specModel), ("trig", mkStrs v.trig)]
+    ("spec_impl", v.specImpl), ("spec_model", v.specModel), ("trig", mkStrs v.trig)] |>.mergeObj
+    (match v.implProj with | some p => Json.mkObj [("impl_proj", p)] | none => Json.mkObj [])
 
 end Sqlc.Drv
